@@ -218,7 +218,10 @@ def run_case(case):
                 continue
             else:
                 raise ValueError(k)
-            if k not in ("reopen",) and got != exp:
+            # return values: judged where the statement's model defines them - what pull() hands out (FIFO head, None /
+            # IndexError when empty) and count(); what push / extend / update / remove / clear / sync return (True, False,
+            # None ...) is not part of "behaves as a FIFO queue / ordered set" and is left to the implementation
+            if k in ("pull", "pull_ne", "count") and got != exp:
                 r.fail("C23/%s-return(%s)" % (kind, k), "step %d %r returned %r, documented %r (model before/after %r)" % (
                     n, op, got, exp, model))
                 break
